@@ -2,9 +2,12 @@
    ceiling,truncate,round,mod,rem,abs,oneplus,oneminus,gcd,lcm,lt,lte,gt,gte,same,logand,logior,logxor,
    lognot}.go and of
    normalizenumber.go for fixnum / bignum / ratio operands.
-   int64 arithmetic is written with its wrap-around; math/big is exact (Z, and Q as reduced n/d);
-   the places where the Go code writes its result INTO an operand are modelled: every operation
-   returns, next to its result, the values of its operands afterwards. *)
+   int64 arithmetic is written with its wrap-around and with the overflow tests the code applies to it
+   (repo_fixes/C05-9..18: a result that is not a fixnum is computed with math/big); math/big is exact
+   (Z, and Q as reduced n/d);
+   every operation returns, next to its result, the values of its operands afterwards (since the
+   repairs repo_fixes/C05-1..5 no operation writes into an operand any more: the math/big results
+   are fresh objects). *)
 From Coq Require Export List Bool ZArith Lia.
 Export ListNotations.
 Open Scope Z_scope.
@@ -22,7 +25,7 @@ Inductive val :=
 | VRat (n d : Z)          (* *slip.Ratio, as big.Rat keeps it: lowest terms, d > 0 (d may be 1) *)
 | VInexact.               (* a float of some format: not modelled further *)
 
-Inductive cond := CDivZero | CArith | CType | CFault.   (* CFault: Go runtime panic (integer divide by zero) *)
+Inductive cond := CDivZero | CArith | CType | CFault.   (* CFault: Go runtime panic *)
 Inductive res :=
 | RVal (v : val)
 | RVals (q r : val)
@@ -52,20 +55,29 @@ Definition norm_kind (a b : val) : kind :=
 Definition as_int (v : val) : Z := match v with VFix z | VBig z => z | _ => 0 end.
 Definition as_num (v : val) : Z := match v with VFix z | VBig z => z | VRat n _ => n | _ => 0 end.
 Definition as_den (v : val) : Z := match v with VRat _ d => d | _ => 1 end.
-Definition is_big (v : val) : bool := match v with VBig _ => true | _ => false end.
-Definition is_rat (v : val) : bool := match v with VRat _ _ => true | _ => false end.
+
+(* fixnum + - * : the machine result, unless the overflow test of the code fires *)
+Definition add_fix (t0 t1 : Z) : val :=
+  let sum := wrap64 (t0 + t1) in
+  if Bool.eqb (t0 <? 0) (t1 <? 0) && negb (Bool.eqb (sum <? 0) (t0 <? 0)) then VBig (t0 + t1) else VFix sum.
+Definition sub_fix (td ta : Z) : val :=
+  let d := wrap64 (td - ta) in
+  if negb (Bool.eqb (td <? 0) (ta <? 0)) && negb (Bool.eqb (d <? 0) (td <? 0)) then VBig (td - ta) else VFix d.
+Definition mul_fix (ta tp : Z) : val :=
+  let p := wrap64 (ta * tp) in
+  if negb (ta =? 0) && (negb (gquot p ta =? tp) || ((ta =? -1) && (tp =? - two63))) then VBig (ta * tp) else VFix p.
 
 (* ---- + and * : the accumulator starts as a fixnum and is always a fresh object ---- *)
 Definition add2 (acc a : val) : val :=
   match norm_kind a acc with
-  | KFix => VFix (wrap64 (as_int a + as_int acc))
+  | KFix => add_fix (as_int a) (as_int acc)
   | KBig => VBig (as_int a + as_int acc)
   | KRat => mkrat (as_num a * as_den acc + as_num acc * as_den a) (as_den a * as_den acc)
   | KInexact => VInexact
   end.
 Definition mul2 (acc a : val) : val :=
   match norm_kind a acc with
-  | KFix => VFix (wrap64 (as_int a * as_int acc))
+  | KFix => mul_fix (as_int a) (as_int acc)
   | KBig => VBig (as_int a * as_int acc)
   | KRat => mkrat (as_num a * as_num acc) (as_den a * as_den acc)
   | KInexact => VInexact
@@ -73,49 +85,44 @@ Definition mul2 (acc a : val) : val :=
 Definition m_add (args : list val) : out := {| o_res := RVal (fold_left add2 args (VFix 0)); o_args := args |}.
 Definition m_mul (args : list val) : out := {| o_res := RVal (fold_left mul2 args (VFix 1)); o_args := args |}.
 
-(* ---- - : the accumulator IS the first operand; bignum and ratio results are written into it ---- *)
-Definition neg1 (a : val) : out :=
+(* ---- - : the accumulator starts as the first operand; every bignum / ratio result is a fresh object
+   (z.Sub / z.Neg into a new big.Int / big.Rat) ---- *)
+Definition neg1 (a : val) : val :=
   match a with
-  | VFix z => {| o_res := RVal (VFix (wrap64 (- z))); o_args := [a] |}
-  | VBig z => {| o_res := RVal (VBig (- z)); o_args := [VBig (- z)] |}          (* Neg into the operand *)
-  | VRat n d => {| o_res := RVal (VRat (- n) d); o_args := [VRat (- n) d] |}    (* Neg into the operand *)
-  | VInexact => {| o_res := RVal VInexact; o_args := [a] |}
+  | VFix z => if z =? - two63 then VBig (- z) else VFix (wrap64 (- z))
+  | VBig z => VBig (- z)
+  | VRat n d => VRat (- n) d
+  | VInexact => VInexact
   end.
-(* one step: (dif, whether dif still is operand 0, what operand 0 holds now) *)
-Definition sub2 (st : val * bool * val) (a : val) : val * bool * val :=
-  let '(dif, alias, op0) := st in
+Definition sub2 (dif a : val) : val :=
   match norm_kind a dif with
-  | KFix => (VFix (wrap64 (as_int dif - as_int a)), false, op0)
-  | KBig => let r := VBig (as_int dif - as_int a) in
-            let al := alias && is_big dif in (r, al, if al then r else op0)
-  | KRat => let r := mkrat (as_num dif * as_den a - as_num a * as_den dif) (as_den a * as_den dif) in
-            let al := alias && is_rat dif in (r, al, if al then r else op0)
-  | KInexact => (VInexact, false, op0)
+  | KFix => sub_fix (as_int dif) (as_int a)
+  | KBig => VBig (as_int dif - as_int a)
+  | KRat => mkrat (as_num dif * as_den a - as_num a * as_den dif) (as_den a * as_den dif)
+  | KInexact => VInexact
   end.
 Definition m_sub (args : list val) : out :=
   match args with
   | [] => {| o_res := RCond CArith; o_args := [] |}
-  | [a] => neg1 a
-  | a :: rest =>
-      let '(dif, _, op0) := fold_left sub2 rest (a, true, a) in
-      {| o_res := RVal dif; o_args := op0 :: rest |}
+  | [a] => {| o_res := RVal (neg1 a); o_args := args |}
+  | a :: rest => {| o_res := RVal (fold_left sub2 rest a); o_args := args |}
   end.
 
 (* ---- / ---- *)
-Definition div2 (st : res * bool * val) (a : val) : res * bool * val :=
+Definition div2 (st : res) (a : val) : res :=
   match st with
-  | (RVal quot, alias, op0) =>
+  | RVal quot =>
       match norm_kind a quot with
-      | KFix => if as_int a =? 0 then (RCond CDivZero, false, op0)
-                else if grem (as_int quot) (as_int a) =? 0 then (RVal (VFix (gquot (as_int quot) (as_int a))), false, op0)
-                else (RVal (mkrat (as_int quot) (as_int a)), false, op0)
-      | KBig => if as_int a =? 0 then (RCond CDivZero, false, op0)
-                else if Z.rem (as_int quot) (as_int a) =? 0 then (RVal (VBig (Z.quot (as_int quot) (as_int a))), false, op0)
-                else (RVal (mkrat (as_int quot) (as_int a)), false, op0)
-      | KRat => if as_num a =? 0 then (RCond CDivZero, false, op0)
-                else let r := mkrat (as_num quot * as_den a) (as_den quot * as_num a) in
-                     let al := alias && is_rat quot in (RVal r, al, if al then r else op0)
-      | KInexact => (RVal VInexact, false, op0)
+      | KFix => if as_int a =? 0 then RCond CDivZero
+                else if (as_int quot =? - two63) && (as_int a =? -1) then RVal (VBig (- as_int quot))   (* the one quotient that is not a fixnum *)
+                else if grem (as_int quot) (as_int a) =? 0 then RVal (VFix (gquot (as_int quot) (as_int a)))
+                else RVal (mkrat (as_int quot) (as_int a))
+      | KBig => if as_int a =? 0 then RCond CDivZero
+                else if Z.rem (as_int quot) (as_int a) =? 0 then RVal (VBig (Z.quot (as_int quot) (as_int a)))
+                else RVal (mkrat (as_int quot) (as_int a))
+      | KRat => if as_num a =? 0 then RCond CDivZero
+                else RVal (mkrat (as_num quot * as_den a) (as_den quot * as_num a))     (* z.Quo into a fresh big.Rat *)
+      | KInexact => RVal VInexact
       end
   | _ => st
   end.
@@ -131,49 +138,18 @@ Definition m_div (args : list val) : out :=
                   else if z =? 1 then {| o_res := RVal a; o_args := [a] |}
                   else {| o_res := RVal (mkrat 1 z); o_args := [a] |}
       | VRat n d => if n =? 0 then {| o_res := RCond CDivZero; o_args := [a] |}
-                    else {| o_res := RVal (mkrat d n); o_args := [mkrat d n] |}     (* Inv into the operand *)
+                    else {| o_res := RVal (mkrat d n); o_args := [a] |}             (* z.Inv into a fresh big.Rat *)
       | VInexact => {| o_res := RVal VInexact; o_args := [a] |}
       end
-  | a :: rest =>
-      let '(r, _, op0) := fold_left div2 rest (RVal a, true, a) in
-      {| o_res := r; o_args := op0 :: rest |}
+  | a :: rest => {| o_res := fold_left div2 rest (RVal a); o_args := args |}
   end.
 
 (* ---- floor ceiling truncate round on integers ---- *)
 Inductive rounding := Floor | Ceiling | Truncate | Round.
 
-(* fixnum branch, verbatim *)
-Definition round_fix (m : rounding) (tn d : Z) : res :=
-  match m with
-  | Truncate => if d =? 0 then RCond CFault else
-      let q := gquot tn d in RVals (VFix q) (VFix (wrap64 (tn - wrap64 (q * d))))
-  | Floor => if d =? 0 then RCond CFault else
-      let q := gquot tn d in let r := wrap64 (tn - wrap64 (q * d)) in
-      if 0 <? d then (if r <? 0 then RVals (VFix (wrap64 (q - 1))) (VFix (wrap64 (r + d))) else RVals (VFix q) (VFix r))
-      else if r <? 0 then RVals (VFix (wrap64 (q + 1))) (VFix (wrap64 (r - d)))      (* sic: the ceiling adjustment *)
-      else RVals (VFix q) (VFix r)
-  | Ceiling => if d =? 0 then RCond CFault else
-      let q := gquot tn d in let r := wrap64 (tn - wrap64 (q * d)) in
-      if 0 <? d then (if 0 <? r then RVals (VFix (wrap64 (q + 1))) (VFix (wrap64 (r - d))) else RVals (VFix q) (VFix r))
-      else if r <? 0 then RVals (VFix (wrap64 (q + 1))) (VFix (wrap64 (r - d)))
-      else RVals (VFix q) (VFix r)
-  | Round => if d =? 0 then RCond CFault else
-      let q0 := gquot tn d in let r0 := wrap64 (tn - wrap64 (q0 * d)) in
-      if r0 =? 0 then RVals (VFix q0) (VFix r0)
-      else
-        let ns := tn <? 0 in let tn' := if ns then wrap64 (- tn) else tn in
-        let ds := d <? 0 in let d' := if ds then wrap64 (- d) else d in
-        if d' =? 0 then RCond CFault else
-        let q := gquot tn' d' in let r := wrap64 (tn' - wrap64 (q * d')) in
-        let dif := wrap64 (r * 2) in
-        let '(q, r) := if (d' <? dif) || ((dif =? d') && negb (grem q 2 =? 0)) then (wrap64 (q + 1), wrap64 (tn' - wrap64 (wrap64 (q + 1) * d'))) else (q, r) in
-        if ns then (if negb ds then RVals (VFix (wrap64 (- q))) (VFix (wrap64 (- r))) else RVals (VFix q) (VFix (wrap64 (- r))))
-        else if ds then RVals (VFix (wrap64 (- q))) (VFix r) else RVals (VFix q) (VFix r)
-  end.
-
-(* bignum branch (big.Int.QuoRem truncates); a zero divisor makes math/big panic *)
+(* bignum branch (big.Int.QuoRem truncates) *)
 Definition round_big (m : rounding) (tn d : Z) : res :=
-  if d =? 0 then RCond CFault else
+  if d =? 0 then RCond CDivZero else
   let zq := Z.quot tn d in let zr := Z.rem tn d in
   match m with
   | Truncate => RVals (VBig zq) (VBig zr)
@@ -197,6 +173,40 @@ Definition round_big (m : rounding) (tn d : Z) : res :=
       else if d <? 0 then RVals (VBig (- q)) (VBig r) else RVals (VBig q) (VBig r)
   end.
 
+(* a zero divisor of any exact type is caught before the branch on the representation
+   (checkDivisor, repo_fixes/C05-8): division-by-zero.  fixnum branch, verbatim; the most negative fixnum
+   divided by -1 is answered with the bignum 2^63 and the fixnum 0 *)
+Definition round_fix (m : rounding) (tn d : Z) : res :=
+  if d =? 0 then RCond CDivZero else
+  if (tn =? - two63) && (d =? -1) then RVals (VBig (- tn)) (VFix 0) else
+  match m with
+  | Truncate =>
+      let q := gquot tn d in RVals (VFix q) (VFix (wrap64 (tn - wrap64 (q * d))))
+  | Floor =>
+      let q := gquot tn d in let r := wrap64 (tn - wrap64 (q * d)) in
+      if 0 <? d then (if r <? 0 then RVals (VFix (wrap64 (q - 1))) (VFix (wrap64 (r + d))) else RVals (VFix q) (VFix r))
+      else if r <? 0 then RVals (VFix (wrap64 (q + 1))) (VFix (wrap64 (r - d)))      (* sic: the ceiling adjustment *)
+      else RVals (VFix q) (VFix r)
+  | Ceiling =>
+      let q := gquot tn d in let r := wrap64 (tn - wrap64 (q * d)) in
+      if 0 <? d then (if 0 <? r then RVals (VFix (wrap64 (q + 1))) (VFix (wrap64 (r - d))) else RVals (VFix q) (VFix r))
+      else if r <? 0 then RVals (VFix (wrap64 (q + 1))) (VFix (wrap64 (r - d)))
+      else RVals (VFix q) (VFix r)
+  | Round =>
+      let q0 := gquot tn d in let r0 := wrap64 (tn - wrap64 (q0 * d)) in
+      if r0 =? 0 then RVals (VFix q0) (VFix r0)
+      else if (tn =? - two63) || (d =? - two63) then round_big Round tn d     (* goto top with both operands as bignums *)
+      else
+        let ns := tn <? 0 in let tn' := if ns then wrap64 (- tn) else tn in
+        let ds := d <? 0 in let d' := if ds then wrap64 (- d) else d in
+        if d' =? 0 then RCond CFault else
+        let q := gquot tn' d' in let r := wrap64 (tn' - wrap64 (q * d')) in
+        let rest := wrap64 (d' - r) in
+        let '(q, r) := if (rest <? r) || ((rest =? r) && negb (grem q 2 =? 0)) then (wrap64 (q + 1), wrap64 (tn' - wrap64 (wrap64 (q + 1) * d'))) else (q, r) in
+        if ns then (if negb ds then RVals (VFix (wrap64 (- q))) (VFix (wrap64 (- r))) else RVals (VFix q) (VFix (wrap64 (- r))))
+        else if ds then RVals (VFix (wrap64 (- q))) (VFix r) else RVals (VFix q) (VFix r)
+  end.
+
 (* ratio branch: both operands as big.Rat; the quotient is always a *Bignum, the remainder a *Ratio
    (a fixnum 0 only where floor / ceiling return it literally) *)
 Definition rnorm (n d : Z) : Z * Z :=          (* d <> 0 *)
@@ -205,7 +215,7 @@ Definition rsub_mul (t : Z * Z) (k : Z) (d : Z * Z) : Z * Z :=      (* t - k*d *
   rnorm (fst t * snd d - k * fst d * snd t) (snd t * snd d).
 Definition rat_val (q : Z * Z) : val := VRat (fst q) (snd q).
 Definition round_rat (m : rounding) (t d : Z * Z) : res :=
-  if fst d =? 0 then RCond CFault else
+  if fst d =? 0 then RCond CDivZero else
   match m with
   | Round =>
       let zn := (Z.abs (fst t), snd t) in let zd := (Z.abs (fst d), snd d) in
@@ -244,15 +254,10 @@ Definition m_round (m : rounding) (args : list val) : out :=
     match norm_kind n d with
     | KFix => {| o_res := round_fix m (as_int n) (as_int d); o_args := orig |}
     | KBig =>
-        let r := round_big m (as_int n) (as_int d) in
-        (* round takes |.| of its bignum operands in place (zn.Abs(zn), zd.Abs(zd)) *)
-        let absop v := match v with VBig z => VBig (Z.abs z) | _ => v end in
-        {| o_res := r; o_args := match m with Round => map absop orig | _ => orig end |}
+        (* round takes |.| of its operands into fresh values (new(big.Int).Abs(zn)) *)
+        {| o_res := round_big m (as_int n) (as_int d); o_args := orig |}
     | KRat =>
-        let r := round_rat m (as_num n, as_den n) (as_num d, as_den d) in
-        (* ... and of its ratio operands *)
-        let absop v := match v with VRat a b => VRat (Z.abs a) b | _ => v end in
-        {| o_res := r; o_args := match m with Round => map absop orig | _ => orig end |}
+        {| o_res := round_rat m (as_num n, as_den n) (as_num d, as_den d); o_args := orig |}
     | KInexact => {| o_res := RVal VInexact; o_args := orig |}
     end in
   match args with
@@ -282,9 +287,9 @@ Definition m_rem (args : list val) : out :=
   match args with
   | [n; d] =>
       match norm_kind n d with
-      | KFix => if as_int d =? 0 then {| o_res := RCond CFault; o_args := args |}
+      | KFix => if as_int d =? 0 then {| o_res := RCond CDivZero; o_args := args |}
                 else {| o_res := RVal (VFix (grem (as_int n) (as_int d))); o_args := args |}
-      | KBig => if as_int d =? 0 then {| o_res := RCond CFault; o_args := args |}
+      | KBig => if as_int d =? 0 then {| o_res := RCond CDivZero; o_args := args |}
                 else {| o_res := RVal (VBig (Z.rem (as_int n) (as_int d))); o_args := args |}
       | _ => {| o_res := RVal VInexact; o_args := args |}
       end
@@ -294,44 +299,82 @@ Definition m_rem (args : list val) : out :=
 (* ---- abs 1+ 1- ---- *)
 Definition m_abs (args : list val) : out :=
   match args with
-  | [VFix z] => {| o_res := RVal (VFix (if z <? 0 then wrap64 (- z) else z)); o_args := args |}
+  | [VFix z] => {| o_res := RVal (if z =? - two63 then VBig (- z) else VFix (if z <? 0 then wrap64 (- z) else z)); o_args := args |}
   | [VBig z] => {| o_res := RVal (VBig (Z.abs z)); o_args := args |}
   | [VRat n d] => {| o_res := RVal (VRat (Z.abs n) d); o_args := args |}
   | _ => {| o_res := RVal VInexact; o_args := args |}
   end.
 Definition m_inc (delta : Z) (args : list val) : out :=
   match args with
-  | [VFix z] => {| o_res := RVal (VFix (wrap64 (z + delta))); o_args := args |}
+  | [VFix z] => (* 1+ tests for MaxInt64, 1- for MinInt64: then the result is computed with math/big *)
+      {| o_res := RVal (if z =? (if delta =? 1 then two63 - 1 else - two63) then VBig (z + delta) else VFix (wrap64 (z + delta))); o_args := args |}
   | [VBig z] => {| o_res := RVal (VBig (z + delta)); o_args := args |}
-  | [VRat n d] => {| o_res := RVal (mkrat (n + delta * d) d); o_args := [mkrat (n + delta * d) d] |}   (* SetFrac into the operand *)
+  | [VRat n d] => {| o_res := RVal (mkrat (n + delta * d) d); o_args := args |}   (* SetFrac into a fresh big.Rat *)
   | _ => {| o_res := RVal VInexact; o_args := args |}
   end.
 
-(* ---- gcd lcm: fixnums only ---- *)
-Fixpoint go_gcd (fuel : nat) (x y : Z) : Z :=
+(* ---- gcd lcm: a loop over fixnums; the first bignum (or the most negative fixnum, whose magnitude is not
+   a fixnum) abandons it and starts over with math/big on ALL operands (bigGcd / bigLcm, which return a
+   fixnum when the result fits); anything else is a type error ---- *)
+Fixpoint go_gcd (fuel : nat) (x y : Z) : Z :=          (* for y != 0 { x, y = y, x%y }; 200 > 2 * 63 iterations *)
   match fuel with O => x | S f => if y =? 0 then x else go_gcd f y (grem x y) end.
+Definition fix_gcd (x y : Z) : Z := go_gcd 200 x y.
 Definition fix_abs (z : Z) : Z := if z <? 0 then wrap64 (- z) else z.
+Fixpoint big_gcd (z : Z) (l : list val) : res :=
+  match l with
+  | [] => RVal (if fits64 z then VFix z else VBig z)
+  | (VFix n | VBig n) :: l' => big_gcd (Z.gcd z n) l'           (* big.Int.GCD: nonnegative, GCD(0, n) = |n| *)
+  | _ :: _ => RCond CType
+  end.
+(* the loops are written as folds over the operands: a state is the running fixnum (and whether the
+   next operand is the first one), or the outcome once the loop has been left *)
+Inductive loop_st := LRun (first : bool) (z : Z) | LDone (r : res).
+Definition loop_res (st : loop_st) : res := match st with LRun _ z => RVal (VFix z) | LDone r => r end.
+Definition gcd_step (all : list val) (st : loop_st) (v : val) : loop_st :=
+  match st with
+  | LDone _ => st
+  | LRun first z =>
+      match v with
+      | VFix n =>
+          if n =? - two63 then LDone (big_gcd 0 all)
+          else let n' := fix_abs n in LRun false (if first then n' else fix_gcd z n')
+      | VBig _ => LDone (big_gcd 0 all)
+      | _ => LDone (RCond CType)
+      end
+  end.
 Definition m_gcd (args : list val) : out :=
-  let step (st : option Z * nat) (a : val) : option Z * nat :=
-    match st, a with
-    | (Some z, i), VFix n => (Some (if Nat.eqb i 0 then fix_abs n else go_gcd 200 z (fix_abs n)), S i)
-    | (_, i), _ => (None, S i)
-    end in
-  {| o_res := match fst (fold_left step args (Some 0, O)) with Some z => RVal (VFix z) | None => RCond CType end; o_args := args |}.
+  {| o_res := loop_res (fold_left (gcd_step args) args (LRun true 0)); o_args := args |}.
+
+(* lcm returns early with 0 at the first zero operand *)
+Fixpoint big_lcm (z : Z) (l : list val) : res :=
+  match l with
+  | [] => RVal (if fits64 z then VFix z else VBig z)
+  | (VFix n | VBig n) :: l' =>
+      if n =? 0 then RVal (VFix 0)
+      else let n' := Z.abs n in big_lcm (z / Z.gcd z n' * n') l'
+  | _ :: _ => RCond CType
+  end.
+Definition lcm_step (all : list val) (st : loop_st) (v : val) : loop_st :=
+  match st with
+  | LDone _ => st
+  | LRun first z =>
+      match v with
+      | VFix n =>
+          if n =? - two63 then LDone (big_lcm 1 all)
+          else if n =? 0 then LDone (RVal (VFix 0))
+          else let n' := fix_abs n in
+               if first then LRun false n'
+               else let g := fix_gcd z n' in
+                    if g =? 0 then LDone (RCond CFault) else
+                    let q := gquot z g in let z' := wrap64 (q * n') in
+                    if negb (gquot z' n' =? q) then LDone (big_lcm 1 all)       (* the multiple is not a fixnum *)
+                    else LRun false z'
+      | VBig _ => LDone (big_lcm 1 all)
+      | _ => LDone (RCond CType)
+      end
+  end.
 Definition m_lcm (args : list val) : out :=
-  (* returns early with 0 at the first zero operand; a non-fixnum before that is a type error *)
-  let fix go (i : nat) (z : Z) (l : list val) : res :=
-    match l with
-    | [] => RVal (VFix z)
-    | VFix n :: l' =>
-        if n =? 0 then RVal (VFix 0)
-        else let n' := fix_abs n in
-             if Nat.eqb i 0 then go (S i) n' l'
-             else let g := go_gcd 200 z n' in
-                  if g =? 0 then RCond CFault else go (S i) (gquot (wrap64 (z * n')) g) l'
-    | _ :: _ => RCond CType
-    end in
-  {| o_res := go O 1 args; o_args := args |}.
+  {| o_res := loop_res (fold_left (lcm_step args) args (LRun true 1)); o_args := args |}.
 
 (* ---- comparisons ---- *)
 (* n/d (d > 0) rounded to p significant bits, to nearest, ties to even: the value is m * 2^e.
